@@ -788,7 +788,7 @@ func (rn *runner) GenOp(r *vh.Rand, i int) string {
 			return fmt.Sprintf("vsweep2 %d", c-16)
 		}
 	}
-	switch r.Pick(22, 26, 14, 6, 6, 12, 8, 4, 2) {
+	switch r.Pick(22, 26, 14, 6, 6, 12, 8, 4, 2, 4) {
 	case 0: // structured frame -> enc (+ dec of the output)
 		return "enc " + frameText(r)
 	case 1: // valid byte-level frame -> dec (+ reenc, dec, prefix re-parse)
@@ -990,6 +990,36 @@ func (rn *runner) GenOp(r *vh.Rand, i int) string {
 				ver = nil
 			}
 			return "tpstdec " + hx(append(ver, b...))
+		}
+	case 9: // MaxDataLen / MaybeSplitOffFrame
+		sid, off := val(r), val(r)
+		if r.Chance(30) {
+			off = 0
+		}
+		hdr := 1 + vlen(sid)
+		if off != 0 {
+			hdr += vlen(off)
+		}
+		maxSize := r.Intn(90)
+		switch r.Pick(40, 30, 30) {
+		case 1:
+			maxSize = hdr + 60 + r.Intn(10) // the 63/64 boundary of the length varint
+		case 2:
+			maxSize = hdr + r.Intn(4)
+		}
+		n := []int{0, 1, 5, 62, 63, 64, 65, 66, 100, 200}[r.Intn(10)]
+		switch r.Intn(5) {
+		case 0:
+			return fmt.Sprintf("smax %d sid=%d off=%d len=%d", maxSize, sid, off, r.Intn(2))
+		case 1:
+			if r.Bool() {
+				return fmt.Sprintf("cmax %d off=%d", maxSize, off)
+			}
+			return fmt.Sprintf("dmax %d len=%d", maxSize, r.Intn(2))
+		case 2:
+			return fmt.Sprintf("csplit %d crypto off=%d data=%s", maxSize, off&(1<<61-1), rhex(r, n))
+		default:
+			return fmt.Sprintf("ssplit %d stream sid=%d off=%d fin=%d len=%d data=%s", maxSize, sid, off&(1<<61-1), r.Intn(2), r.Intn(2), rhex(r, n))
 		}
 	default: // tokens
 		key := rhex(r, 32)
